@@ -230,3 +230,12 @@ def dense_replay(method, T, failed, config="default"):
                     break
     log.append(f"native continuous order conditions violated (order, tree, theta, residual): {bad[:5]}")
     return (True if bad else None), src, "\n".join(log)
+
+
+def script_replay(method, backward, failed, kind):
+    """Native confirmation of a stepper-control violation: see rsym/replay_script.py."""
+    try:
+        from . import replay_script
+    except ImportError:
+        return None, "", "scripted replay not available"
+    return replay_script.confirm(method, backward, failed, kind)
